@@ -145,9 +145,62 @@ def tok_class(t):
     return t.kind
 
 
+def check_token_lines(prog, res, tier, fam, tail):
+    """The program with EVERY token first on a line of its own (wherever the dialect allows a line break): each token's
+    line is indented by the depth the derivation gives that token -- `do`, `then`, operators and operands of a broken
+    loop / if header included --, the output is a fixed point, and it does not depend on the input's indentation."""
+    widths = BOUNDS[tier]['widths']
+    n = len(prog.toks)
+    tl = []
+    for i in range(n):
+        if tl and (i in prog.no_nl):
+            tl[-1].append(i)
+        else:
+            tl.append([i])
+    lines = [L.line_text(prog, idxs) for idxs in tl]
+    if len(lines) == len(L.canonical_lines(prog, False)):
+        return
+    base = build(lines)
+    if not L.validate_source(prog, base):
+        res.count('token_lines_layout_not_valid')
+        return
+    res.nontriv(base)
+    for w in widths:
+        res.evaluations += 1
+        case = {'src': base, 'width': w, 'family': fam, 'variant': 'token-lines'}
+        try:
+            o = fmt(base, w)
+        except Exception as e:
+            res.count('formatter_raises')
+            return
+        if not check_output_shape(prog, base, o, w, res, case, tail):
+            return
+        try:
+            o2 = fmt(o, w)
+        except Exception as e:
+            res.violation('C10|idempotence|raise|%s' % tail, 'luafmt of its own output %r raised %r' % (o, e), case)
+            return
+        if o2 != o:
+            res.violation('C10|idempotence', 'luafmt(%r, %d) = %r but formatting that again gives %r' % (base, w, o, o2), case)
+            return
+        alt = build(lines, lead={i: LEADS[i % 3] for i in range(0, len(lines), 2)})
+        res.evaluations += 1
+        try:
+            oa = fmt(alt, w)
+        except Exception as e:
+            res.violation('C10|variant-raise|%s|%s' % (type(e).__name__, tail), 'luafmt(%r) raised %r although %r formats' % (alt, e, base), case)
+            return
+        if oa != o:
+            res.violation('C10|indent-sensitive', 'luafmt(%r, %d) = %r, but the same program indented differently (%r) gives %r' % (
+                base, w, o, alt, oa), {'src': alt, 'width': w, 'family': fam, 'variant': 'token-lines', 'base': base})
+            return
+    res.outcome(('token-lines', tail))
+
+
 def check_program(prog, res, tier, fam):
     widths = BOUNDS[tier]['widths']
     tail = c08.stat_kinds(prog)
+    check_token_lines(prog, res, tier, fam, tail)
     for bb in (False, True):
         tl = L.canonical_lines(prog, bb)
         if bb and tl == L.canonical_lines(prog, False):
